@@ -244,7 +244,11 @@ PanicOnAllPaths(T, x, p) == \A q \in PathsFrom(T, x) : q[Len(q)] = p => \E i \in
 SourcesEnded(G, T, r) == \A p \in RootsOf(T, r) : Kd(T, p) = "pipe" => (G.ended[p] \/ (PanicOnAllPaths(T, r, p) /\ PANICV \in Range(G.got[r])))
 Bad(G, why) == [G EXCEPT !.bad = why]
 
-LateBound(T, p) == IF Hops(T, p) = 0 THEN 0 ELSE T[p].cap + Hops(T, p)
+\* A forwarder notices the close of its consumer only when it has an item to forward: items that a skipping convert inside the forwarder
+\* drops (ErrNoValue loop of streamReaderWithConvert.recv) are consumed without noticing, so they are added to the bound.
+SkipConvAbove(T, p) == \E c \in Ids(T) : Kd(T, c) = "conv" /\ T[c].skip > 0 /\ p \in RootsOf(T, c)
+SkippableItems(T, p) == IF SkipConvAbove(T, p) THEN Cardinality({j \in 1..Len(T[p].items) : T[p].items[j] > 0 /\ T[p].items[j] % 2 = 0}) ELSE 0
+LateBound(T, p) == IF Hops(T, p) = 0 THEN 0 ELSE T[p].cap + Hops(T, p) + SkippableItems(T, p)
 ObsE(G, T, e) ==
   IF e.ev = "hang" THEN Bad(G, "operation-never-returns")
   ELSE IF e.ev = "panic" THEN Bad(G, "operation-panicked")
